@@ -136,9 +136,11 @@ TailLag == next[tail] = 0 \/ next[next[tail]] = 0
 Returned == {out[i][2] : i \in 1..Len(out)} \ {0}
 NoDup == Cardinality({i \in 1..Len(out) : out[i][2] # 0}) = Cardinality(Returned)
 NoInvention == \A w \in Returned : \E p \in Enqueuers, i \in 1..NEnq : w = ValOf(p, i)
-\* values of one producer are returned in the order they were enqueued
+\* values of one producer are obtained by one consumer in the order they were enqueued (`out` is in the order the
+\* dequeue calls return: two consumers may return in the opposite order of their head CASes, which is what
+\* Linearizable judges; the gnet poller has one consumer per queue)
 PerProducerFIFO == \A i, j \in 1..Len(out) :
-    (i < j /\ out[i][2] # 0 /\ out[j][2] # 0 /\ out[i][2] \div 100 = out[j][2] \div 100) => out[i][2] < out[j][2]
+    (i < j /\ out[i][1] = out[j][1] /\ out[i][2] # 0 /\ out[j][2] # 0 /\ out[i][2] \div 100 = out[j][2] \div 100) => out[i][2] < out[j][2]
 \* the counter lags the abstract length by the operations between link and increment / head CAS and decrement
 LengthLag == length = Len(absQ) - Cardinality({p \in Procs : pc[p] \in {"E_CasSwing", "E_IncLen"}})
                                  + Cardinality({p \in Procs : pc[p] = "D_DecLen"})
